@@ -744,13 +744,12 @@ def _strip77(t):
     return t
 
 
-def c7_classification_is_material(fb, rep):
+def c7_classification_is_material(fb, rep, clause='C07.7'):
     """Cache-key completeness of the material hash: Evaluate::computeMaterialScore stores the result of the classification
     pass `endGameEval<false>` under the material signature alone, and evalPos uses that cached flag for every later position
     with the same signature.  So everything the classification pass branches on must be a function of the material: the
     signature, the material sums, piece counts (bitCount of a piece set) and presence tests of piece sets - never squares,
     masks, the side to move or the running score."""
-    clause = 'C07.7'
     cands = [f for f in fb.funcs.values() if f.has_cfg and f.name.replace(' ', '') == 'EndGameEval::endGameEval<false>']
     if rep.need(clause, cands, 'EndGameEval::endGameEval<false>') is None:
         return
